@@ -387,3 +387,121 @@ Proof.
     + intros l Hl. specialize (R2 l ltac:(lia)). rewrite (R1 l Hl) in R2. lia.
     + constructor; [intros k E; specialize (Hk k E); lia|exact F2].
 Qed.
+
+(** ** Any interleaving *)
+(** owner counts are exactly the handles in existence; handles point into the store *)
+Definition inv (c : cfg) : Prop :=
+  forall l, rc_of (st c) l = cnt l (hs c) /\ (0 < cnt l (hs c) -> l < length (st c)).
+
+Lemma cnt_cons x h k : cnt k (x :: h) = cnt k h + (if Nat.eqb k x then 1 else 0).
+Proof. unfold cnt. cbn [count_occ]. destruct (Nat.eq_dec x k) as [->|H]; [rewrite Nat.eqb_refl; lia|]. destruct (Nat.eqb_spec k x); [congruence|lia]. Qed.
+Lemma cnt_nil k : cnt k [] = 0. Proof. reflexivity. Qed.
+
+Lemma cnt_remove1 l h k : cnt k (remove1 l h) = cnt k h - (if Nat.eqb k l then (if 0 <? cnt l h then 1 else 0) else 0).
+Proof.
+  induction h as [|x h IH]; cbn [remove1].
+  - rewrite !cnt_nil. destruct (Nat.eqb k l); reflexivity.
+  - rewrite !cnt_cons. destruct (Nat.eqb_spec x l) as [->|Hx].
+    + rewrite Nat.eqb_refl. destruct (Nat.eqb_spec k l) as [E|Hk].
+      * subst k. replace (0 <? cnt l h + 1) with true by (symmetry; apply Nat.ltb_lt; lia). lia.
+      * lia.
+    + rewrite cnt_cons, IH. destruct (Nat.eqb_spec l x); [congruence|].
+      destruct (Nat.eqb_spec k l) as [E|Hk].
+      * subst k. replace (l =? x) with false by (symmetry; apply Nat.eqb_neq; congruence). rewrite !Nat.add_0_r. destruct (0 <? cnt l h); lia.
+      * lia.
+Qed.
+
+Lemma rc_of_lt σ l : 0 < rc_of σ l -> l < length σ.
+Proof. intros H. destruct (Nat.lt_ge_cases l (length σ)); [assumption|]. rewrite rc_out in H by assumption. lia. Qed.
+
+(** what one step does: the invariant is kept, every cell to which a pinned handle exists
+    keeps its payload, and pinned handles stay counted *)
+Lemma step_inv pinned c o c' :
+  inv c -> (forall l, cnt l pinned <= cnt l (hs c)) -> step pinned c o = Some c' ->
+  inv c' /\ (forall l, cnt l pinned <= cnt l (hs c')) /\
+  (forall l, 0 < cnt l pinned -> pl_of (st c') l = pl_of (st c) l) /\
+  length (st c) <= length (st c').
+Proof.
+  intros I P H. destruct o as [l|l|p|l p]; cbn [step] in H.
+  - (* clone *)
+    destruct (Nat.ltb_spec 0 (cnt l (hs c))) as [Hl|]; [|discriminate]. injection H as <-. cbn [st hs].
+    destruct (I l) as [_ Il]. specialize (Il Hl).
+    split; [|split; [|split]].
+    + intros k. cbn [st hs]. rewrite (rc_inc _ l k Il), cnt_cons, len_inc. destruct (I k) as [Ik Lk]. split; [lia|].
+      intros Hk. destruct (Nat.eqb_spec k l) as [->|]; [exact Il|apply Lk; lia].
+    + intros k. cbn [st hs]. rewrite cnt_cons. specialize (P k). lia.
+    + intros k _. cbn [st hs]. apply pl_inc.
+    + cbn [st]. rewrite len_inc. lia.
+  - (* drop *)
+    unfold free_handle in H. destruct (Nat.ltb_spec (cnt l pinned) (cnt l (hs c))) as [Hl|]; [|discriminate].
+    injection H as <-. cbn [st hs].
+    split; [|split; [|split]].
+    + intros k. cbn [st hs]. rewrite rc_dec, cnt_remove1, len_dec. destruct (I k) as [Ik Lk].
+      replace (0 <? cnt l (hs c)) with true by (symmetry; apply Nat.ltb_lt; lia).
+      split; [destruct (Nat.eqb k l); lia|]. intros Hk. apply Lk. destruct (Nat.eqb k l); lia.
+    + intros k. cbn [st hs]. rewrite cnt_remove1. specialize (P k).
+      replace (0 <? cnt l (hs c)) with true by (symmetry; apply Nat.ltb_lt; lia).
+      destruct (Nat.eqb_spec k l) as [->|]; lia.
+    + intros k _. cbn [st hs]. apply pl_dec.
+    + cbn [st]. rewrite len_dec. lia.
+  - (* alloc *)
+    unfold alloc in H. injection H as <-. cbn [st hs].
+    split; [|split; [|split]].
+    + intros k. cbn [st hs]. rewrite rc_alloc, cnt_cons, app_length. cbn [length rc]. destruct (I k) as [Ik Lk].
+      destruct (Nat.ltb_spec k (length (st c))) as [Hk|Hk].
+      * destruct (Nat.eqb_spec k (length (st c))); [lia|]. split; lia.
+      * assert (cnt k (hs c) = 0) by (destruct (Nat.eq_dec (cnt k (hs c)) 0); [assumption|]; specialize (Lk ltac:(lia)); lia).
+        destruct (Nat.eqb_spec k (length (st c))); split; lia.
+    + intros k. cbn [st hs]. rewrite cnt_cons. specialize (P k). lia.
+    + intros k Hk. cbn [st hs]. rewrite pl_alloc. specialize (P k). destruct (I k) as [_ Lk]. specialize (Lk ltac:(lia)).
+      destruct (Nat.ltb_spec k (length (st c))); [reflexivity|lia].
+    + cbn [st]. rewrite app_length. lia.
+  - (* append through make_mut *)
+    unfold free_handle in H. destruct (Nat.ltb_spec (cnt l pinned) (cnt l (hs c))) as [Hl|]; [|discriminate].
+    destruct (I l) as [Rl Ll]. specialize (Ll ltac:(lia)).
+    unfold make_mut in H. destruct (Nat.eqb_spec (rc_of (st c) l) 1) as [H1|H1].
+    + (* sole owner: in place; then no pinned handle to l exists *)
+      injection H as <-. cbn [st hs]. rewrite Nat.eqb_refl.
+      split; [|split; [|split]].
+      * intros k. cbn [st hs]. rewrite rc_set, len_set. apply I.
+      * exact P.
+      * intros k Hk. cbn [st hs]. rewrite pl_set by exact Ll. destruct (Nat.eqb_spec k l) as [->|]; [|reflexivity]. lia.
+      * cbn [st]. rewrite len_set. lia.
+    + (* shared: a private copy *)
+      unfold alloc in H. injection H as <-. cbn [st hs].
+      assert (Hne : Nat.eqb (length (st c)) l = false) by (apply Nat.eqb_neq; lia). rewrite Hne.
+      assert (Lc : length (dec (st c ++ [{| rc := 1; pl := pl_of (st c) l |}]) l) = S (length (st c)))
+        by (rewrite len_dec, app_length; cbn; lia).
+      split; [|split; [|split]].
+      * intros k. cbn [st hs]. rewrite rc_set, rc_dec, rc_alloc, len_set, Lc, cnt_cons, cnt_remove1. cbn [rc].
+        destruct (I k) as [Ik Lk].
+        replace (0 <? cnt l (hs c)) with true by (symmetry; apply Nat.ltb_lt; lia).
+        destruct (Nat.ltb_spec k (length (st c))) as [Hk|Hk].
+        -- destruct (Nat.eqb_spec k (length (st c))); [lia|]. split; [destruct (Nat.eqb k l); lia|lia].
+        -- assert (cnt k (hs c) = 0) by (destruct (Nat.eq_dec (cnt k (hs c)) 0); [assumption|]; specialize (Lk ltac:(lia)); lia).
+           destruct (Nat.eqb_spec k l); [lia|].
+           destruct (Nat.eqb_spec k (length (st c))); split; lia.
+      * intros k. cbn [st hs]. rewrite cnt_cons, cnt_remove1. specialize (P k).
+        replace (0 <? cnt l (hs c)) with true by (symmetry; apply Nat.ltb_lt; lia).
+        destruct (Nat.eqb_spec k l) as [E|]; [subst k|]; destruct (Nat.eqb _ (length (st c))); lia.
+      * intros k Hk. cbn [st hs]. specialize (P k). destruct (I k) as [_ Lk]. specialize (Lk ltac:(lia)).
+        rewrite pl_set by (rewrite Lc; lia). destruct (Nat.eqb_spec k (length (st c))); [lia|].
+        rewrite pl_dec, pl_alloc. destruct (Nat.ltb_spec k (length (st c))); [reflexivity|lia].
+      * cbn [st]. rewrite len_set, Lc. lia.
+Qed.
+
+(** For EVERY sequence of steps - every interleaving of any number of threads - the buffers the
+    context holds keep their payload, owner counts stay exact, and nothing is freed while a
+    handle to it exists. *)
+Theorem any_interleaving pinned ops : forall c c',
+  inv c -> (forall l, cnt l pinned <= cnt l (hs c)) -> steps pinned c ops = Some c' ->
+  inv c' /\ (forall l, cnt l pinned <= cnt l (hs c')) /\
+  (forall l, 0 < cnt l pinned -> pl_of (st c') l = pl_of (st c) l).
+Proof.
+  induction ops as [|o ops IH]; intros c c' I P H; cbn [steps] in H.
+  - injection H as <-. repeat split; auto; apply I.
+  - destruct (step pinned c o) as [c1|] eqn:E; [|discriminate].
+    destruct (step_inv pinned c o c1 I P E) as (I1 & P1 & Q1 & _).
+    destruct (IH c1 c' I1 P1 H) as (I2 & P2 & Q2).
+    split; [exact I2|]. split; [exact P2|]. intros l Hl. rewrite (Q2 l Hl). now apply Q1.
+Qed.
